@@ -24,6 +24,9 @@ Obligations
   C08.<Client.method>.same_exception_class.<outcome>
   C08.<Client.method>.same_effect.<outcome>        same sequence of datastore writes under L and R
   C08.<Client.method>.promised.<what>.{local,remote}   exceptions/results promised by client_abc docstrings
+  C08.<Rpc>.returns_declared_response              every normally terminating path of every RPC handler (VizierServicer,
+                                                   PythiaServicer) returns a non-None value (of the declared message class
+                                                   where known): a stub cannot serialise anything else (INTERNAL)
 
 Bounded stand-in (never counted as an obligation): loop-back replay of the (method x outcome) matrix on
 a real DefaultVizierServer / DistributedPythiaVizierServer (replay/c08_grpc.py).
@@ -151,6 +154,7 @@ class C08Model(excflow.Model):
     remote_error = REMOTE_ERROR
     status_unknown = SC + 'UNKNOWN'
     status_ok = SC + 'OK'
+    status_internal = SC + 'INTERNAL'
     servicer_key = K_SERVICER
     enum_classes = ('grpc.StatusCode',)
     directable = DIRECTABLE
@@ -162,6 +166,12 @@ class C08Model(excflow.Model):
         self.ds_classes = ds_classes            # method -> {class name -> key}
         self.unknown_ds_methods = set()
         self.summaries = {}
+        # declared result of the DataStore methods (return annotations of the real ABC)
+        self.ds_returns = {}
+        ci = ModuleInfo.get(M_DS).classes.get('DataStore')
+        for m, fn in (ci.methods.items() if ci is not None else ()):
+            if isinstance(fn.returns, (ast.Name, ast.Attribute)):
+                self.ds_returns[m] = fn.returns
 
     def datastore_call(self, method, it):
         is_write = method.split('_')[0] in ('create', 'update', 'delete')
@@ -200,6 +210,19 @@ class C08Model(excflow.Model):
         if fam is not None:
             it.ambient[fam] = False
         return None, is_write
+
+    def message_class(self, name):
+        # a class of a generated protobuf module (…_pb2.Trial, …_pb2.StudySpec.MetricSpec), not a stub
+        return re.search(r'_pb2\.[A-Z][A-Za-z0-9]*(\.[A-Z][A-Za-z0-9]*)*$', name) is not None
+
+    def datastore_return(self, method, it):
+        ann = self.ds_returns.get(method)
+        if ann is None:
+            return UNKNOWN
+        v = it.eval(ann, Frame(ModuleInfo.get(M_DS), None, None, 'DataStore.' + method))
+        if isinstance(v, Ext) and self.message_class(v.name):
+            return excflow.ExtInst(v.name)
+        return UNKNOWN
 
     def classify(self, cls_key, qual, ordinal, it=None):
         if cls_key == M_CE + ':ImmutableStudyError':
@@ -463,12 +486,19 @@ def ob_handle_exception(chk, an):
                     terminal = False
                     witness = witness or (k, res)
             vague = any(code == '?' or (oc[0] == 'raise' and (oc[2] == '?' or oc[1] == '?unknown')) for oc, code in res)
-            chk.obligation('C08.handle_exception.code.%s.%s' % (h.short(k), nm), 'handle_exception', 'paths',
-                           report.PROVED if ok else (report.UNDECIDED if vague else report.VIOLATED), time.time() - t0,
-                           detail={'expected': want, 'paths': [[list(oc), c] for oc, c in res]},
-                           model='handle_exception(%s(), %s): %s, expected status %s' % (
-                               h.short(k), 'None' if mode == 'L' else '<servicer context>', res, want),
-                           reproduced=None)
+            oname = 'C08.handle_exception.code.%s.%s' % (h.short(k), nm)
+            detail = {'expected': want, 'paths': [[list(oc), c] for oc, c in res]}
+            if ok or vague:
+                chk.obligation(oname, 'handle_exception', 'paths', report.PROVED if ok else report.UNDECIDED, time.time() - t0,
+                               detail=detail)
+            else:
+                # native scenario in which the servicer hands an exception of this class to handle_exception
+                sc = HANDLE_EXCEPTION_SCENARIO.get(h.short(k))
+                case = dict(sc, check='code', deployment=mode, want=want) if sc else None
+                PENDING.append({'name': oname, 'function': 'handle_exception', 'backend': 'paths', 'sig': [], 't': time.time() - t0,
+                                'model': 'handle_exception(%s(), %s): %s, expected status %s' % (
+                                    h.short(k), 'None' if mode == 'L' else '<servicer context>', res, want),
+                                'case': case, 'detail': detail})
     name = 'C08.handle_exception.remote_terminates_rpc'
     t0 = time.time()
     if terminal:
@@ -482,13 +512,21 @@ def ob_handle_exception(chk, an):
                           case={'method': 'Trial.delete', 'state': ['immutable_study'], 'check': 'effect'}, t=time.time() - t0)
 
 
+# client scenarios in which the servicer passes an exception of the class to handle_exception (for the native replay)
+HANDLE_EXCEPTION_SCENARIO = {
+    'ImmutableStudyError': {'method': 'Trial.delete', 'state': ['immutable_study']},
+    'ImmutableTrialError': {'method': 'Trial.complete', 'state': ['immutable_trial']},
+    'ValueError': {'method': 'Trial.complete', 'state': ['no_final_measurement']},
+}
+
+
 def known_or_violated(chk, name, function, sig, model, case, t=0.0, backend='paths'):
     """Residual-obligation rule (DESIGN 2.7): an open known finding covers exactly its recorded signature."""
     f = chk.finding_for(name)
     if f is not None and sorted(f.get('signature', [])) == sorted(sig):
-        chk.obligation(name, function, backend, report.KNOWN, t, detail={'signature': sig, 'root_cause': f.get('root_cause')},
-                       finding=f.get('what', name))
-        KNOWN_USED.append((name, f, case))
+        # recorded only after the witness was replayed (settle_known): a stale entry suppresses nothing
+        KNOWN_CANDIDATES.append({'name': name, 'function': function, 'backend': backend, 'sig': sig, 'model': model,
+                                 'case': case, 't': t, 'finding': f, 'detail': {'signature': sig}})
         return 'known'
     detail = {'signature': sig}
     if f is not None:
@@ -499,8 +537,40 @@ def known_or_violated(chk, name, function, sig, model, case, t=0.0, backend='pat
     return 'violated'
 
 
-KNOWN_USED = []
-PENDING = []        # violations to be confirmed by replay before they are reported
+KNOWN_USED = []             # (obligation, finding, case) of the known findings that were accepted on this run
+KNOWN_CANDIDATES = []       # obligations that fail exactly as an open recorded finding says (accepted after replay)
+PENDING = []                # violations to be confirmed by replay before they are reported
+
+
+def stale_note(chk, text):
+    """A recorded finding whose witness does not reproduce on this tree: a plain NOTE, never an error."""
+    chk.note('NOTE ' + text)
+    print('NOTE property=%s %s' % (PID, text[:600]))
+
+
+def settle_known(chk, an, tier, res):
+    """Accept a known finding only if its witness still reproduces on the real code (where it was replayed: the flagship
+    witnesses in the quick tier, all of them in the thorough tier).  A stale entry is a NOTE and suppresses nothing: its
+    obligation is handled like any other violation."""
+    n = 0
+    for k in KNOWN_CANDIDATES:
+        f, case, ok, native = k['finding'], k['case'], None, None
+        if res is not None and case is not None and (tier == 'thorough' or f.get('flagship')):
+            rs = [res['cases'].get(c['id']) for c in replay_cases_for(case, case_id(case))]
+            ok, native = reproduces(an, case, rs, f.get('signature') if case.get('check', 'class') == 'class' else None)
+            n += 1
+            if ok is None:
+                stale_note(chk, 'the scenario of the recorded finding %s could not be set up on this tree (%s); '
+                                'the finding is kept' % (k['name'], case_id(case)))
+        if ok is False:
+            stale_note(chk, 'the recorded finding %s no longer reproduces on the real code (stale entry in known_findings.d/C08.json, '
+                            'case %s); it suppresses nothing' % (k['name'], case_id(case)))
+            PENDING.append({kk: k[kk] for kk in ('name', 'function', 'backend', 'sig', 'model', 'case', 't', 'detail')})
+            continue
+        chk.obligation(k['name'], k['function'], k['backend'], report.KNOWN, k['t'],
+                       detail={'signature': k['sig'], 'root_cause': f.get('root_cause')}, finding=f.get('what', k['name']))
+        KNOWN_USED.append((k['name'], f, case))
+    return n
 
 
 STOPS_VS_GOES_ON = 'the local RPC stops at the error, the remote handler goes on and writes to the datastore'
@@ -606,6 +676,104 @@ def ob_method(chk, an, mkey, states_out):
             sig = sorted(div)
             known_or_violated(chk, oname, name, sig, model='\n'.join(explain(ex, s) for s in sig), case=None, t=time.time() - t0)
     return tags
+
+
+class AllPathsModel(C08Model):
+    """Every error block is explored both ways (no abstract state): used to enumerate ALL paths of a handler."""
+    directable = frozenset()
+
+
+M_PS = SVC + 'pythia_service'
+SERVICERS = ((M_VS, 'VizierServicer'), (M_PS, 'PythiaServicer'))
+
+
+def handlers_of(dotted, cname):
+    try:
+        ci = ModuleInfo.get(dotted).classes[cname]
+    except (KeyError, FileNotFoundError):
+        return None, []
+    return ci, [m for m, fn in ci.methods.items()
+                if m[0].isupper() and any(a.arg == 'context' for a in fn.args.args)]
+
+
+def ob_returns_declared_response(chk, an, mkeys):
+    """C08.<Rpc>.returns_declared_response: every normally terminating path of every servicer RPC handler returns a value
+    that is not None (no fall-off-the-end, no bare `return`) and, where the class of the returned object is known, an
+    instance of the declared response message.  In-process the caller gets whatever the handler returns; a gRPC server cannot
+    serialise anything else and ends the RPC with StatusCode.INTERNAL -- the deployments diverge."""
+    model = AllPathsModel(an.h, an.model.ds_classes)
+    callers = {}
+    for mkey in mkeys:
+        try:
+            for p in an.paths(mkey, (), 'L'):
+                for r in p.rpcs:
+                    callers.setdefault(r, []).append(mname(mkey))
+        except (excflow.Unsupported, excflow.PathLimit):
+            pass
+    for dotted, cname in SERVICERS:
+        ci, names = handlers_of(dotted, cname)
+        if ci is None:
+            chk.error('C08.extract.%s' % cname, 'servicer class not found')
+            continue
+        key = Hierarchy.key_of(ci)
+        for name in sorted(names):
+            t0 = time.time()
+            oname = 'C08.%s.returns_declared_response' % name
+            chk.function(dotted, '%s.%s' % (cname, name), role='RPC handler: every path returns the declared response')
+            declared = [None]
+
+            def entry(it, key=key, name=name, ci=ci):
+                it.rpc_depth, it.rpc_name = 1, name
+                fr = Frame(ci.mod, None, None, '<grpc server>')
+                sv = it.construct(key, [], {}, fr)
+                f = it.getattr_v(sv, name, fr)
+                declared[0] = it.declared_response(f)
+                return it.invoke(f, [UNKNOWN, Special('ctx', code=None)], {}, fr)
+            try:
+                ps = excflow.enumerate_paths(model, an.h, entry, (), 'R')
+            except (excflow.Unsupported, excflow.PathLimit) as e:
+                chk.obligation(oname, '%s.%s' % (cname, name), 'paths', report.UNDECIDED, time.time() - t0,
+                               detail='analysis gave up: %r' % (e,))
+                continue
+            for p in ps:
+                an.notes |= p.notes
+            normal = [p for p in ps if p.outcome[0] == 'return']
+            bad = {}
+            for p in normal:
+                why = None
+                if p.outcome[1] == 'none':
+                    why = '%s: the handler returns None' % p.last_return
+                elif p.outcome[1].startswith('empty_'):
+                    why = '%s: the handler returns a %s, not a message' % (p.last_return, p.outcome[1][6:])
+                elif p.ret_type is not None and declared[0] is not None and p.ret_type != declared[0]:
+                    why = '%s: the handler returns a %s, declared %s' % (p.last_return, p.ret_type.rsplit('_pb2.', 1)[-1],
+                                                                           declared[0].rsplit('_pb2.', 1)[-1])
+                if why is not None:
+                    bad.setdefault(why, p)
+            detail = {'paths': len(ps), 'normally_terminating': len(normal),
+                      'declared': declared[0], 'typed_returns': sorted({p.ret_type for p in normal if p.ret_type})}
+            if not normal:
+                chk.obligation(oname, '%s.%s' % (cname, name), 'paths', report.UNDECIDED, time.time() - t0,
+                               detail=dict(detail, note='no normally terminating path found'))
+            elif not bad:
+                chk.obligation(oname, '%s.%s' % (cname, name), 'paths', report.PROVED, time.time() - t0, detail=detail)
+            else:
+                users = sorted(set(callers.get(name, [])), key=lambda m: (not m.startswith(('Trial.', 'Study.')), m))
+                case = None
+                if cname == 'VizierServicer' and users:
+                    case = {'method': users[0], 'state': [], 'check': 'response', 'variants': ['twice', 'after_complete']}
+                elif cname == 'PythiaServicer' and name in PYTHIA_USERS:
+                    case = {'method': PYTHIA_USERS[name], 'state': [], 'check': 'response_pythia'}
+                known_or_violated(chk, oname, '%s.%s' % (cname, name), sorted(bad),
+                                  model='\n'.join('%s\n  events on that path: %s; datastore writes: %s' % (w, p.fired, list(p.writes))
+                                                  for w, p in sorted(bad.items())) +
+                                        '\nin-process the caller gets that value; a gRPC server cannot serialise it (StatusCode.INTERNAL)',
+                                  case=case, t=time.time() - t0)
+
+
+# client methods whose servicer RPC consults the Pythia handler (for the native replay: single server vs split Pythia)
+PYTHIA_USERS = {'Suggest': 'Study.suggest', 'EarlyStop': 'Trial.check_early_stopping'}
+
 
 
 def read_promises(an):
@@ -751,6 +919,8 @@ def replay_cases_for(case, cid):
     out = [base]
     if 'immutable_trial' in case['state']:
         out.append(dict(base, id=cid + '#succeeded', variant='succeeded'))
+    for v in case.get('variants', ()):
+        out.append(dict(base, id=cid + '#' + v, variant=v))
     return out
 
 
@@ -773,11 +943,34 @@ def reproduces(an, case, results, signature=None):
                 verdicts.append(not (q['kind'] == 'raise' and any(m.rsplit('.', 1)[-1] == case.get('promised') for m in q['mro'])))
         elif check == 'effect':
             verdicts.append(eff is not None)
+        elif check == 'code':
+            q = c['L' if case.get('deployment', 'L') == 'L' else 'R']['result']
+            verdicts.append(not (q['kind'] == 'raise' and RPC_ERROR in q['mro'] and q.get('code') == case.get('want')))
+        elif check == 'response_pythia':
+            if not usable(c, ('R', 'P')):
+                continue
+            _, pa, pcls, peff = native_sig(an, c, 'R', 'P')
+            native[-1]['split_pythia'] = c['P'].get('result')
+            verdicts.append(pcls is not None or peff is not None)
+        elif check == 'response':
+            # the in-process caller gets the handler's result, the stub cannot serialise it
+            rr = c['R']['result']
+            verdicts.append(cls is not None and rr['kind'] == 'raise' and rr.get('code') == 'INTERNAL')
         else:
             verdicts.append(cls is not None and (signature is None or cls in signature))
     if not verdicts:
         return None, native
     return any(verdicts), native
+
+
+def how_to_replay(case):
+    if not case:
+        return None
+    cmd = '/venv/bin/python /verif/replay/c08_grpc.py --case %s %s' % (case['method'], ' '.join(case['state']))
+    vs = [c.get('variant') for c in replay_cases_for(case, 'x') if c.get('variant')]
+    if case.get('check') == 'response_pythia':
+        cmd += ' --deployments R,P'
+    return cmd + (('   # also with --variant ' + ' / --variant '.join(vs)) if vs else '')
 
 
 def confirm_pending(chk, an, tier):
@@ -788,13 +981,18 @@ def confirm_pending(chk, an, tier):
     cases, seen = [], set()
     for p in PENDING:
         if p['case'] is not None:
+            if p['case'].get('check') in ('class', 'response') and 'variants' not in p['case'] and \
+                    not ({'missing_trial', 'missing_study', 'bad_study_name'} & set(p['case']['state'])):
+                # the outcome "ok" covers every state of the trial: called twice / on a trial that was completed before
+                p['case'] = dict(p['case'], variants=['twice', 'after_complete'])
             for c in replay_cases_for(p['case'], case_id(p['case'])):
                 if c['id'] not in seen:
                     seen.add(c['id'])
                     cases.append(c)
     res = None
     if cases:
-        res, err = run_replay(cases, ['L', 'R'], 'violations')
+        deps = ['L', 'R'] + (['P'] if any((p['case'] or {}).get('check') == 'response_pythia' for p in PENDING) else [])
+        res, err = run_replay(cases, deps, 'violations')
         if err:
             chk.note('replay of violations unavailable: %s' % err)
             res = None
@@ -814,8 +1012,7 @@ def confirm_pending(chk, an, tier):
         else:
             chk.obligation(p['name'], p['function'], p['backend'], report.VIOLATED, p['t'], detail=detail, model=p['model'],
                            replay={'case': p['case'], 'native': native,
-                                   'how': '/venv/bin/python /verif/replay/c08_grpc.py --case %s %s' % (
-                                       (p['case'] or {}).get('method', '<method>'), ' '.join((p['case'] or {}).get('state', [])))},
+                                   'how': how_to_replay(p['case'])},
                            reproduced=reproduced)
 
 
@@ -826,9 +1023,9 @@ EXTRA_MATRIX = [
 ]
 
 
-def check_known_and_matrix(chk, an, tier, states_out):
-    """Known findings are re-reproduced (a stale entry is a checker error).  Thorough tier: the whole matrix is replayed
-    as a bounded stand-in and compared with the path model."""
+def replay_known_and_matrix(chk, an, tier, states_out):
+    """One run of the loop-back driver: the witnesses of the known findings (quick: the flagship ones) and, in the thorough
+    tier, the whole (client method x outcome) matrix.  -> (result | None, index of the matrix cases)."""
     cases, index, have = [], {}, set()
 
     def add(c, idx=None):
@@ -852,38 +1049,24 @@ def check_known_and_matrix(chk, an, tier, states_out):
         deployments = ['L', 'R', 'P', 'Lr', 'Rr']
     else:
         deployments = ['L', 'R']
-    for name, f, case in KNOWN_USED:
-        if case is not None and (tier == 'thorough' or f.get('flagship')):
-            for c in replay_cases_for(case, case_id(case)):
+    for k in KNOWN_CANDIDATES:
+        if k['case'] is not None and (tier == 'thorough' or k['finding'].get('flagship')):
+            for c in replay_cases_for(k['case'], case_id(k['case'])):
                 add(c)
     if not cases:
-        return
+        return None, index, cases
     t0 = time.time()
     res, err = run_replay(cases, deployments, tier)
     if err:
+        # a driver failure or timeout is a checker error, never a violation; known findings are kept
         chk.error('C08.replay', err)
-        return
+        return None, index, cases
     chk.note('loop-back replay: %d cases x %s in %.1fs.' % (len(cases), deployments, time.time() - t0))
-    # 1. every known finding that was used must still reproduce on the real code
-    n_known, not_run = 0, []
-    for name, f, case in KNOWN_USED:
-        if case is None or not (tier == 'thorough' or f.get('flagship')):
-            continue
-        rs = [res['cases'].get(c['id']) for c in replay_cases_for(case, case_id(case))]
-        ok, native = reproduces(an, case, rs, f.get('signature') if case.get('check', 'class') == 'class' else None)
-        n_known += 1
-        if ok is None:
-            not_run.append(case_id(case))
-        elif not ok:
-            chk.error('C08.known_finding_stale.%s' % name,
-                      'the recorded known finding does not reproduce on the real code (case %s: %s)' % (case_id(case), native))
-    if not_run:
-        chk.error('C08.replay.setup', 'the scenarios of %d known findings could not be set up on the real code: %s' % (
-            len(not_run), sorted(set(not_run))[:6]))
-    if tier != 'thorough':
-        chk.bounded_standin('C08.replay.flagship', '%d known-finding witnesses on a loop-back DefaultVizierServer' % n_known,
-                            'reproduced', detail=sorted(c['id'] for c in cases))
-        return
+    return res, index, cases
+
+
+def compare_matrix(chk, an, res, index, cases):
+    """Thorough tier: the replayed matrix as bounded stand-in, compared with the path model."""
     # 2. the matrix as bounded stand-in: the real results must lie inside the path model, and every divergence between two
     #    deployments must be covered by an obligation that is a known finding -- otherwise it is a violation (reproduced)
     known_names = {n for n, _, _ in KNOWN_USED} | {o['obligation'] for o in chk.obligations if o['result'] == report.VIOLATED}
@@ -949,11 +1132,14 @@ INVENTORY = [
     'C08.handle_exception.code.NotFoundError.local', 'C08.handle_exception.code.NotFoundError.remote',
     'C08.handle_exception.code.ImmutableStudyError.remote', 'C08.handle_exception.remote_terminates_rpc',
     'C08.Trial.complete.same_exception_class.immutable_study', 'C08.Trial.delete.same_effect.immutable_study',
+    'C08.StopTrial.returns_declared_response', 'C08.GetTrial.returns_declared_response',
+    'C08.SuggestTrials.returns_declared_response', 'C08.Suggest.returns_declared_response',
 ]
 
 
 def main(tier):
     del KNOWN_USED[:]
+    del KNOWN_CANDIDATES[:]
     del PENDING[:]
     chk = report.Check(PID, tier, level='proof',
                        technique='exception-class flow of the client methods over the real ASTs under the union of the local '
@@ -997,6 +1183,7 @@ def main(tier):
             if rpc[0].isupper():
                 chk.function(M_VS, 'VizierServicer.' + rpc, role='servicer method interpreted under both contracts')
         chk.function(M_VS, 'VizierServicer._study_is_immutable', role='inlined')
+        ob_returns_declared_response(chk, an, mkeys)
         try:
             ob_promised(chk, an)
         except (excflow.Unsupported, excflow.PathLimit) as e:
@@ -1005,12 +1192,20 @@ def main(tier):
         for t in ('missing_study', 'missing_trial', 'immutable_study', 'immutable_trial'):
             if t not in all_tags:
                 chk.error('C08.vacuity.%s' % t, 'the condition %s was never met on any path: the model of the service is vacuous' % t)
+        res, index, cases = replay_known_and_matrix(chk, an, tier, states_out)
+        n_known = settle_known(chk, an, tier, res)
         confirm_pending(chk, an, tier)
-        check_known_and_matrix(chk, an, tier, states_out)
+        if res is not None and tier != 'thorough':
+            chk.bounded_standin('C08.replay.flagship', '%d known-finding witnesses on a loop-back DefaultVizierServer' % n_known,
+                                'replayed', detail=sorted(c['id'] for c in cases))
+        if res is not None and tier == 'thorough':
+            compare_matrix(chk, an, res, index, cases)
         # assumptions
         chk.assume('gRPC: an exception escaping a servicer method surfaces at the stub as grpc.RpcError with code UNKNOWN unless '
                    'the handler set a code on its context; context.set_code(c) surfaces as grpc.RpcError with code c, also when '
                    'the handler returns normally or raises afterwards; the error raised by a stub is a subclass of grpc.RpcError')
+        chk.assume('gRPC: a handler that returns None (or an object that is not the declared response message) makes the server fail to '
+                   'serialise the response: the stub raises grpc.RpcError with code INTERNAL; in-process the caller gets the value')
         chk.assume('a stub method M runs VizierServicer.M of the server (DefaultVizierServer registers that class)')
         chk.assume('DataStore contract of DESIGN Appendix A (exception classes read from the docstrings of the real ABC): ' + DS_NEVER_REASON)
         chk.assume('implicit exceptions of straight-line code (IndexError, TypeError, attrs validators, protobuf errors) and '
